@@ -14,7 +14,7 @@ class Contract:
                  inline=False, trusted=False, pure=False, ghost=None, auto=True, result_fresh=True,
                  prop_of=None, notes='', cls_targs=None, verify=True, terminates=True, unroll=None,
                  reads_only=False, this_shape=None, extra_env=None, body_assumes=(), max_paths=4000,
-                 returns_ref=None, timeout_ms=None, sig_not=None):
+                 returns_ref=None, timeout_ms=None, sig_not=None, binds=None):
         self.name = name
         self.tu = tu
         self.sig = sig
@@ -43,6 +43,7 @@ class Contract:
         self.max_paths = max_paths
         self.returns_ref = returns_ref
         self.sig_not = sig_not
+        self.binds = dict(binds or {})
         self.timeout_ms = timeout_ms
 
     def props_for(self, label):
@@ -129,6 +130,24 @@ def cdiv_def():
     den = c * c + d * d
     return z3.ForAll([a, b, c, d], z3.And(CDIV_RE(a, b, c, d) == (a * c + b * d) / den,
                                           CDIV_IM(a, b, c, d) == (b * c - a * d) / den))
+
+
+# j is one of the positions a + k*m, 0 <= k < nc (strided range membership). Used by the std::copy/fill
+# models and by the slice contracts; INSLICE_AX() is its definition plus two unit-stride consequences
+# (proved from the definition by engine/selftest.py).
+INSLICE = z3.Function('in_slice', z3.IntSort(), z3.IntSort(), z3.IntSort(), z3.IntSort(), z3.BoolSort())
+
+
+def inslice_def():
+    a, m, nc, j, k = z3.Ints('a!is m!is nc!is j!is k!is')
+    return z3.ForAll([a, m, nc, j], INSLICE(a, m, nc, j) == z3.Exists([k], z3.And(0 <= k, k < nc, j == a + k * m)))
+
+
+def inslice_ax():
+    a, m, nc, j, k = z3.Ints('a!is m!is nc!is j!is k!is')
+    return z3.And(
+        z3.ForAll([a, nc, j], INSLICE(a, 1, nc, j) == z3.And(a <= j, j < a + nc)),
+        z3.ForAll([a, nc, j], INSLICE(a, -1, nc, j) == z3.And(a - nc < j, j <= a)))
 
 
 class W:
@@ -398,7 +417,7 @@ def eqv(a, b):
 
 BASE_NS = {
     'add': _arith('+'), 'sub': _arith('-'), 'mul': _arith('*'), 'div': _arith('/'), 'eqv': eqv,
-    'cx': cx, 'CDIV_DEF': cdiv_def,
+    'cx': cx, 'CDIV_DEF': cdiv_def, 'INSLICE': INSLICE, 'INSLICE_AX': inslice_ax,
     'And': z3.And, 'Or': z3.Or, 'Not': z3.Not, 'Implies': z3.Implies, 'If': z3.If, 'Xor': z3.Xor,
     'forall': lambda f: _bounded('A', f), 'exists': lambda f: _bounded('E', f),
     'INT_MIN': INT_MIN, 'INT_MAX': INT_MAX, 'tdiv': tdiv, 'tmod': tmod, 'absz': zabs, 'zmax': zmax, 'zmin': zmin,
